@@ -448,3 +448,50 @@ theorem verifySignature_attached (H : List UInt8 → List UInt8) (sign : List UI
   simp [edVerify, hpk, hsc sk]
 
 end Tongo.Wallet
+
+namespace Tongo.Wallet
+open Tongo Tongo.Bits
+
+/-- what `VerifySignature` computes on the envelope around ANY ordinary cell `c` with ANY 64-byte string attached where
+the version puts its signature, for ANY 32-byte key: the scheme's verdict on (key, hash of `c`, that string) -/
+theorem verifySignature_envelope (H : List UInt8 → List UInt8) (verify : List UInt8 → List UInt8 → List UInt8 → Bool)
+    (v : Version) (hv : v.family ≠ .v1v2) (sig : List UInt8) (hs : sig.length = 64)
+    (c : Cell) (hty : c.ty = 0) (hmask : c.mask = 0) (hdc : c.depthO ≤ maxDepth)
+    (self : Address) (hh : self.hash.length = 32) (code data : Cell) (withInit : Bool)
+    (hdep : (envelope self (attached v sig c) (if withInit then some (stateInitCell code data) else none)).depthO ≤ maxDepth)
+    (pk : List UInt8) (hpk : pk.length = 32) :
+    verifySignature H verify v
+      (envelope self (attached v sig c) (if withInit then some (stateInitCell code data) else none)) pk
+        = .ok (verify pk (c.hashO H) sig) := by
+  have hdec := decodeExtMessage_envelope self hh (attached v sig c)
+    (if withInit then some (stateInitCell code data) else none) (envelope_init_ok code data withInit) hdep
+  unfold verifySignature
+  rw [verifierOf_sigFirst v hv, hdec]
+  simp only [bind, Outcome.bind, attached_ordinary]
+  unfold attached
+  rw [splitSignature_attached H (sigFirst v) _ hs c hty hmask hdc]
+  simp [edVerify, hpk]
+
+/-- every ordinary body cell with at least 512 bits is some 64-byte string attached to some ordinary cell -/
+theorem body_is_attached (v : Version) (b : Cell) (hty : b.ty = 0) (hmask : b.mask = 0) (hl : 512 ≤ b.bits.length) :
+    ∃ sig c, sig.length = 64 ∧ c.ty = 0 ∧ c.mask = 0 ∧ c.refs = b.refs ∧ b = attached v sig c := by
+  obtain ⟨ty, mask, bits, refs⟩ := b
+  simp only [Cell.ty, Cell.mask, Cell.bits] at hty hmask hl
+  subst hty hmask
+  have hpad : ∀ l : List Bool, l.length = 512 → bytesToBits (bitsToBytes l) = l := by
+    intro l h
+    rw [bytesToBits_bitsToBytes_pad, h]; simp [padLen]
+  have hlen : ∀ l : List Bool, l.length = 512 → (bitsToBytes l).length = 64 := by
+    intro l h; rw [bitsToBytes_length, h]
+  unfold attached
+  by_cases hf : sigFirst v = true
+  · refine ⟨bitsToBytes (bits.take 512), Cell.ordinary (bits.drop 512) refs, hlen _ (by simp; omega), rfl, rfl, rfl, ?_⟩
+    rw [if_pos hf, hpad _ (by simp; omega)]
+    simp [Cell.ordinary, Cell.bits, Cell.refs]
+  · have h512 : (List.drop (bits.length - 512) bits).length = 512 := by rw [List.length_drop]; omega
+    refine ⟨bitsToBytes (bits.drop (bits.length - 512)), Cell.ordinary (bits.take (bits.length - 512)) refs,
+      hlen _ h512, by simp [Cell.ordinary, Cell.ty], by simp [Cell.ordinary, Cell.mask], by simp [Cell.ordinary, Cell.refs], ?_⟩
+    rw [if_neg hf, hpad _ h512]
+    simp [Cell.ordinary, Cell.bits, Cell.refs]
+
+end Tongo.Wallet
